@@ -128,6 +128,61 @@ template<typename St> void after_create(St &st, Slot &s, long news, bool seen_be
     vf_out(news);
 }
 
+
+// ================================================================= requested sizes as symbolic data (no coroutine: the policy is called directly)
+// Three requests alloc(sz_i) on one storage with sz_i an arbitrary size in [1, 400]; between two requests the earlier block is released
+// (skeleton: sequential) or kept alive (overlapping - only for the policies that allow it). Every byte of [p, p+sz) must be memory the caller may
+// write (probed at 0, sz-1 and at an arbitrary offset; the policy's own bookkeeping writes - the owner pointer behind the frame - are checked by
+// the memory obligations of the encoding), blocks that are live at the same time do not overlap, a size not larger than one served before
+// needs no new heap block under the reusing policies, everything is released at the end.
+#if C19_PART == 0 || C19_PART == 1 || C19_PART == 2 || C19_PART == 5
+extern "C" void h_sizes() {
+    const int n = 1 + vf_choice(3);
+    const int overlap = vf_choice(2);
+    vf_warmup();
+    const long base = vf_live_allocs();
+    {
+#if C19_PART == 5
+        std::vector<char> vbuf;
+        S st(vbuf);
+#else
+        S st;
+#endif
+        g_ntab = 0;
+        void *ps[3]; std::size_t szs[3]; std::size_t maxsz = 0;
+        for (int i = 0; i < n; ++i) {
+            std::size_t sz = (std::size_t)nondet_int();
+            VF_ASSUME(sz >= 1 && sz <= 400);
+            szs[i] = sz;
+            const long n0 = vf_total_allocs();
+            unsigned char *p = static_cast<unsigned char *>(st.alloc(sz));
+            const long news = vf_total_allocs() - n0;
+            ps[i] = p;
+            std::size_t off = (std::size_t)nondet_int();
+            VF_ASSUME(off < sz);
+            p[off] = 0xC0 + i; p[0] = 0xA0 + i; p[sz - 1] = 0xB0 + i;         // the whole requested range belongs to the caller
+            if (overlap)
+                for (int j = 0; j < i; ++j) {
+                    unsigned char *q = static_cast<unsigned char *>(ps[j]);
+                    VF_ASSERT(p + sz <= q || q + szs[j] <= p, "C19 two simultaneously live frames never share memory");
+                }
+            if (REUSING && !overlap && sz <= maxsz) VF_ASSERT(news == 0, "C19 a reusing policy allocates no heap memory for a frame size it has served before");
+            if (sz > maxsz) maxsz = sz;
+            if (!overlap) { VF_ASSERT(p[sz - 1] == 0xB0 + i && (off == 0 || off == sz - 1 || p[off] == 0xC0 + i), "C19 the frame's memory keeps what was written to it"); S::dealloc(p, sz); }
+        }
+        if (overlap) for (int i = n - 1; i >= 0; --i) {
+            unsigned char *p = static_cast<unsigned char *>(ps[i]);
+            VF_ASSERT((szs[i] == 1 || p[0] == 0xA0 + i) && p[szs[i] - 1] == 0xB0 + i, "C19 a live frame's memory is not disturbed by later requests on the same storage");
+            S::dealloc(p, szs[i]);
+        }
+        VF_ASSERT(live_blocks() == 0, "C19 every block handed out was released");
+    }
+    VF_ASSERT(vf_live_allocs() == base, "C19 all heap memory of the policy is released exactly once when the storage dies");
+    vf_choice_end();
+    vf_witness();
+}
+#endif
+
 // ================================================================= sequential programs: one live frame per storage
 extern "C" void h_seq() {
     const int nframes = 1 + vf_choice(3);
